@@ -1,8 +1,9 @@
 """C09  Match succeeds exactly on conforming targets and returns them unchanged.
 
 spec -> code: every (pattern, target) case TLC enumerates from spec/MC_C09.tla -- with the
-outcome GlomMatch!Ev predicts for glom(t, Match(p)) and glom(t, Match(p, default=77)) -- is
-replayed into the real library: glom(), Match.verify(), Match.matches(), Match(default=),
+outcome GlomMatch!Ev predicts for glom(t, Match(p)) and glom(t, Match(p, default=[77, T])) -- is
+replayed into the real library: glom(), Match.verify(), Match.matches(), Match(default=), the
+same Match object evaluated again after the caller mutated the first result,
 result compared with ==, exception class against the permitted classes, target heap
 snapshot before/after.
 code -> spec: seeded random deeper patterns with a derived conforming target and one-edit
@@ -21,7 +22,7 @@ import c09_build as B
 import c09_gen as G
 
 PROP = 'C09'
-DEFAULT = 77
+DEFAULT_TREE = {'k': 'c', 'cls': 'list', 'items': [{'k': 'int', 'i': 77}, {'k': 'targ', 'steps': []}]}   # default=[77, T]
 
 
 SLOW_EVERY = 1      # failing cases: verify() / matches() (two more full error paths) on every n-th case
@@ -41,7 +42,17 @@ def run_case(pattern, tree, full=True):
     if full or obs['glom']['ok']:
         call('verify', lambda m: m.verify(target))
         call('matches', lambda m: m.matches(target))
-    call('default', lambda m: glom.glom(target, m), default=DEFAULT)
+    call('default', lambda m: glom.glom(target, m), default=B.arg_py(DEFAULT_TREE))
+    if obs['glom']['ok'] and B.has_default(pattern):
+        # ONE Match object evaluated, its result mutated by the caller, evaluated again
+        m, failed = B.build(pattern, ctx, wrap=Match)
+        if failed:
+            obs['again'] = failed
+        else:
+            first = B.observe(lambda: glom.glom(target, m))
+            if first['ok']:
+                B.poison(first['res'], target)
+            obs['again'] = B.observe(lambda: glom.glom(target, m))
     obs['unchanged'] = B.snapshot(target) == before
     return obs
 
@@ -68,7 +79,8 @@ def judge(pred, obs):
         return []
     bad = []
     for call, what, oo in (('glom', 'glom(t, Match(p))', o), ('verify', 'Match(p).verify(t)', o),
-                           ('default', 'glom(t, Match(p, default=77))', od)):
+                           ('default', 'glom(t, Match(p, default=[77, T]))', od),
+                           ('again', 'glom(t, m) again after the first result of the same m = Match(p) was mutated', pred['o2'])):
         if call in obs:
             w = judge_outcome(oo, obs[call], what)
             if w:
@@ -136,6 +148,7 @@ def record_row(pattern, tree, how=''):
     g = obs['glom']
     row = dict(heap=cells, root=root, pattern=pattern, how=how,
                obs=dict(glom=enc(g), verify=enc(obs['verify']), default=enc(obs['default']),
+                        again=enc(obs.get('again', g)), has_again='again' in obs,
                         matches=bool(obs['matches'].get('res')) if obs['matches']['ok'] else False,
                         matches_raised=not obs['matches']['ok'],
                         unchanged=obs['unchanged'],
@@ -228,7 +241,9 @@ MUTANTS = [('opt_default_always', ('Result', 'Unchanged', 'Decides')), ('dict_tr
            ('tuple_length_unchecked', ('Decides',)),                     # tuples are fixed-length
            ('unorderable_is_rejection', ('ErrClass',)),                  # unorderable operands
            ('callable_some_exceptions', ('ErrClass',)),                  # whatever a callable raises is a rejection
-           ('cmp_by_complement', ('Decides',))]                          # partial orders (sets): > is not "not <="
+           ('cmp_by_complement', ('Decides',)),                          # partial orders (sets): > is not "not <="
+           ('default_aliased', ('Again',)),                              # Optional / Match defaults are built afresh
+           ('default_not_evaluated', ('Default', 'Result'))]             # defaults are argument values (T resolved)
 
 
 
